@@ -221,12 +221,12 @@ namespace occa {
           launchBlock.add(pathSmnt.init->clone(&launchBlock));
 
           const bool isOuter = pathSmnt.hasAttribute("outer");
-          outerCount -= isOuter;
-          innerCount -= !isOuter;
 
-          const int index = (isOuter
-                             ? outerCount
-                             : innerCount);
+          // The launch dimension of a loop is the index its device-side iterator uses
+          // (replaceOccaFor): the explicit @outer(N) / @inner(N) if there is one, else the
+          // nesting depth. Counting nesting positions here transposed the launch whenever
+          // the explicit indices did not follow the nesting order
+          const int index = oklForSmnt.oklLoopIndex();
           token_t *source = pathSmnt.source;
           const std::string &name = (isOuter
                                      ? "outer"
